@@ -299,7 +299,8 @@ pub fn judge(property: &str, scn: &Scenario, rec: &RunRecord) -> Judgement {
                         }
                         if judged && !beyond {
                             let exp: String = if at_end { NO_MORE.to_string() } else { known_rem[0].clone() };
-                            if *s != exp {
+                            let alt_ok = !at_end && b.answers_alt.get(m.pos).map(|a| a == s).unwrap_or(false);
+                            if *s != exp && !alt_ok {
                                 report("C23", "wrong_answer", o, exp.clone(), s.clone(), format!("answer #{}; duration {} us; flag before/after: {}/{}; thunks during the call: {:?}", m.pos + 1, d, o.flag_before, o.flag_on_return, o.thunks));
                                 if d < LIMIT_US {
                                     report("C22", "wrong_answer", o, exp, s.clone(), format!("answer #{}; duration {} us; thunks during the call: {:?}", m.pos + 1, d, o.thunks));
@@ -351,7 +352,8 @@ pub fn judge(property: &str, scn: &Scenario, rec: &RunRecord) -> Judgement {
                         if judged {
                             // prefix of the remaining answers
                             let n = body.len().min(known_rem.len());
-                            let prefix_ok = body[..n] == known_rem[..n] && (body.len() <= known_rem.len() || !b.complete);
+                            let same = |i: usize| body[i] == known_rem[i] || b.answers_alt.get(m.pos + i).map(|a| *a == body[i]).unwrap_or(false);
+                            let prefix_ok = (0..n).all(same) && (body.len() <= known_rem.len() || !b.complete);
                             if !prefix_ok {
                                 report("C23", "not_a_prefix", o, format!("a prefix of {}", show_list(known_rem)), show_list(list), format!("duration {} us; thunks during the call: {:?}", d, o.thunks));
                                 if d < LIMIT_US {
